@@ -60,7 +60,42 @@ Ja9999(n) ==
   \o (IF s > 0 THEN (IF s = 1 THEN "" ELSE CjkDigit[s]) \o Shi ELSE "") \o (IF g > 0 THEN CjkDigit[g] ELSE "")
 SpellJa(n) == IF n = 0 THEN "{96f6}" ELSE IF n < 10000 THEN Ja9999(n) ELSE CjkDigit[n \div 10000] \o Wan \o (IF n % 10000 = 0 THEN "" ELSE Ja9999(n % 10000))
 
-Spell(cul, n) == CASE cul = "es-es" -> SpellEs(n) [] cul = "fr-fr" -> SpellFr(n) [] cul = "de-de" -> SpellDe(n) [] cul = "zh-cn" -> SpellZh(n) [] cul = "ja-jp" -> SpellJa(n)
+(* ---------------------------------------------------------------- Portuguese (pt-br) *)
+PtUnits == <<"um", "dois", "tr{ea}s", "quatro", "cinco", "seis", "sete", "oito", "nove", "dez", "onze", "doze", "treze", "quatorze", "quinze", "dezesseis", "dezessete", "dezoito", "dezenove">>
+PtTens == <<"", "vinte", "trinta", "quarenta", "cinquenta", "sessenta", "setenta", "oitenta", "noventa">>
+PtHundreds == <<"cento", "duzentos", "trezentos", "quatrocentos", "quinhentos", "seiscentos", "setecentos", "oitocentos", "novecentos">>
+Pt99(n) == IF n < 20 THEN PtUnits[n] ELSE IF n % 10 = 0 THEN PtTens[n \div 10] ELSE PtTens[n \div 10] \o " e " \o PtUnits[n % 10]
+Pt999(n) == IF n < 100 THEN Pt99(n) ELSE IF n = 100 THEN "cem" ELSE IF n % 100 = 0 THEN PtHundreds[n \div 100] ELSE PtHundreds[n \div 100] \o " e " \o Pt99(n % 100)
+(* "e" joins the thousands to a rest below 100 or a round hundred *)
+SpellPt(n) == IF n = 0 THEN "zero" ELSE IF n < 1000 THEN Pt999(n)
+              ELSE LET r == n % 1000 IN
+                   (IF n \div 1000 = 1 THEN "mil" ELSE Pt999(n \div 1000) \o " mil")
+                   \o (IF r = 0 THEN "" ELSE IF r < 100 \/ r % 100 = 0 THEN " e " \o Pt999(r) ELSE " " \o Pt999(r))
+
+(* ---------------------------------------------------------------- Italian (below 100, round hundreds and thousands) *)
+ItUnits == <<"uno", "due", "tre", "quattro", "cinque", "sei", "sette", "otto", "nove", "dieci", "undici", "dodici", "tredici", "quattordici", "quindici", "sedici", "diciassette", "diciotto", "diciannove">>
+ItTens == <<"", "venti", "trenta", "quaranta", "cinquanta", "sessanta", "settanta", "ottanta", "novanta">>
+DropLast(s) == SubSeq(s, 1, Len(s) - 1)
+It99(n) == IF n < 20 THEN ItUnits[n] ELSE IF n % 10 = 0 THEN ItTens[n \div 10]
+           ELSE IF n % 10 \in {1, 8} THEN DropLast(ItTens[n \div 10]) \o ItUnits[n % 10]
+           ELSE IF n % 10 = 3 THEN ItTens[n \div 10] \o "tr{e9}" ELSE ItTens[n \div 10] \o ItUnits[n % 10]
+SpellIt(n) == IF n = 0 THEN "zero" ELSE IF n < 100 THEN It99(n)
+              ELSE IF n < 1000 THEN (IF n \div 100 = 1 THEN "cento" ELSE ItUnits[n \div 100] \o "cento")
+              ELSE (IF n \div 1000 = 1 THEN "mille" ELSE ItUnits[n \div 1000] \o "mila")
+ItDomain(n) == n < 100 \/ (n < 1000 /\ n % 100 = 0) \/ (n < 10000 /\ n % 1000 = 0)
+
+(* ---------------------------------------------------------------- Dutch (below 100, round hundreds and thousands) *)
+NlUnits == <<"een", "twee", "drie", "vier", "vijf", "zes", "zeven", "acht", "negen", "tien", "elf", "twaalf", "dertien", "veertien", "vijftien", "zestien", "zeventien", "achttien", "negentien">>
+NlTens == <<"", "twintig", "dertig", "veertig", "vijftig", "zestig", "zeventig", "tachtig", "negentig">>
+Nl99(n) == IF n < 20 THEN NlUnits[n] ELSE IF n % 10 = 0 THEN NlTens[n \div 10]
+           ELSE NlUnits[n % 10] \o (IF n % 10 \in {2, 3} THEN "{eb}n" ELSE "en") \o NlTens[n \div 10]
+SpellNl(n) == IF n = 0 THEN "nul" ELSE IF n < 100 THEN Nl99(n)
+              ELSE IF n < 1000 THEN (IF n \div 100 = 1 THEN "honderd" ELSE NlUnits[n \div 100] \o "honderd")
+              ELSE (IF n \div 1000 = 1 THEN "duizend" ELSE NlUnits[n \div 1000] \o "duizend")
+
+InDomain(cul, n) == IF cul \in {"it-it", "nl-nl"} THEN ItDomain(n) ELSE TRUE
+
+Spell(cul, n) == CASE cul = "pt-br" -> SpellPt(n) [] cul = "it-it" -> SpellIt(n) [] cul = "nl-nl" -> SpellNl(n) [] cul = "es-es" -> SpellEs(n) [] cul = "fr-fr" -> SpellFr(n) [] cul = "de-de" -> SpellDe(n) [] cul = "zh-cn" -> SpellZh(n) [] cul = "ja-jp" -> SpellJa(n)
 
 (* digit pattern of n: each digit as "0", "1" or "n" (2..9) - identifies the numeral construction used *)
 RECURSIVE DigitPattern(_)
@@ -69,9 +104,9 @@ DigitPattern(s) == IF Len(s) = 0 THEN "" ELSE (IF Ch(s, 1) \in {"0", "1"} THEN C
 CONSTANTS Ns, Cultures
 MkCase(cul, n) ==
   LET text == Spell(cul, n) IN
-  [api |-> "number", culture |-> cul, text |-> text, s |-> 0, e |-> CpLen(text) - 1, expect |-> ToString(n), variant |-> "standard", shape |-> DigitPattern(ToString(n)),
+  [api |-> "number", culture |-> cul, text |-> text, s |-> 0, e |-> CpLen(text) - 1, expect |-> ToString(n), variant |-> "standard", shape |-> DigitPattern(ToString(n)) \o (IF cul = "it-it" /\ n % 10 = 3 /\ n > 20 /\ n < 100 THEN "-accented-tre" ELSE ""),
    size |-> (IF n < 100 THEN "<100" ELSE IF n < 1000 THEN "<10^3" ELSE "<10^5")]
-Cases == { MkCase(cul, n) : cul \in Cultures, n \in Ns }
+Cases == { MkCase(t[1], t[2]) : t \in { x \in Cultures \X Ns : InDomain(x[1], x[2]) } }
 
 Verdict(c, obs) ==
   LET es == obs.ents IN
